@@ -306,6 +306,9 @@ theorem projects_crit (s : Sys F) (d : Nat) : Projects s (.crit d) :=
 theorem projects_failNext (s : Sys F) (cid : Nat) : Projects s (.failNext cid) :=
   projects_frame s _ rfl (fun h => h) rfl rfl rfl
 
+theorem projects_failAfter (s : Sys F) (cid k : Nat) : Projects s (.failAfter cid k) :=
+  projects_frame s _ rfl (fun h => h) rfl rfl rfl
+
 /-- Injecting a socket re-creation failure touches neither the manager nor the links. -/
 theorem projects_failBind (s : Sys F) (cid : Nat) : Projects s (.failBind cid) :=
   projects_frame s _ rfl (fun h => h) rfl rfl rfl
@@ -906,7 +909,7 @@ theorem projects (s : Sys F) (e : Ev) (hnr : e.isReload = false) : Projects s e 
   | setCfg cfg => exact projects_setCfg s cfg
   | crit d => exact projects_crit s d
   | failNext cid => exact projects_failNext s cid
-  | failAfter cid kfa => exact projects_failNext s cid
+  | failAfter cid kfa => exact projects_failAfter s cid kfa
   | failBind cid => exact projects_failBind s cid
   | stamp idx weak ld ccb cct => exact projects_stamp s idx weak ld ccb cct
   | syncTimeout => exact projects_syncTimeout s
@@ -2047,7 +2050,8 @@ theorem att_frame {i cid D : Nat} {s s' : Sys F} (h : Att i cid D s) (hreg : s'.
 still pending, provided the event injects neither a send failure nor a socket re-creation failure for
 the pending link and a tick's clock is positive; a tick that leaves the attempt pending came before its deadline. -/
 theorem att_step {i cid D : Nat} {s : Sys F} (h : Att i cid D s) (hok : RegOk s.reg) (e : Ev)
-    (hstay : (step s e).1.reg.pending = some i) (hne : e ≠ .failNext cid) (hnb : e ≠ .failBind cid)
+    (hstay : (step s e).1.reg.pending = some i) (hne : e ≠ .failNext cid) (hna : ∀ k, e ≠ .failAfter cid k)
+    (hnb : e ≠ .failBind cid)
     (hpos : ∀ now, e = .hk now → 0 < now) (hnr : e.isReload = false) :
     Att i cid D (step s e).1 ∧ (∀ now, e = .hk now → now < s.reg.pendingTimeoutAt) := by
   cases e with
@@ -2072,7 +2076,7 @@ theorem att_step {i cid D : Nat} {s : Sys F} (h : Att i cid D s) (hok : RegOk s.
   | failAfter c kfa =>
     refine ⟨att_frame h rfl rfl ?_ h.nobind, fun _ he => by cases he⟩
     show (c :: s.failNext).contains cid = false
-    have hc : c ≠ cid := fun hc => hne (by rw [hc])
+    have hc : c ≠ cid := fun hc => hna kfa (by rw [hc])
     have := h.nofail
     simp only [List.contains_eq_mem, List.mem_cons, decide_eq_false_iff_not] at this ⊢
     rintro (h1 | h1)
@@ -2108,7 +2112,7 @@ theorem att_step {i cid D : Nat} {s : Sys F} (h : Att i cid D s) (hok : RegOk s.
 
 /-- **Run form.**  Start observing in any reachable state in which uplink `i` is pending with deadline
 `D` (e.g. right after the first REG1 of the attempt at `t0`: `D = t0 + 4000`).  Along every
-continuation in which the attempt stays pending, no send failure and no socket re-creation failure is
+continuation in which the attempt stays pending, no send failure (plain or partial) and no socket re-creation failure is
 injected for the pending link (a failed re-creation of a never-established link is retried after
 1000 ms and re-sends REG1 each time, renewing the wait) and tick clocks are positive: the deadline is renewed at most once and stays below `D + 4000`; and every
 housekeeping tick that left the attempt pending had `now < D + 3999`. -/
@@ -2119,31 +2123,35 @@ theorem abandon_bound {s0 : Sys F} (h0 : Startup s0) (i D : Nat) (l : FLink F) :
       (runS s0 evs1).failBind.contains l.core.connId = false →
       Unanswered i (runS s0 evs1) evs2 →
       (∀ e ∈ evs2, e ≠ .failNext l.core.connId ∧ ∀ now, e = .hk now → 0 < now) →
+      (∀ e ∈ evs2, ∀ k, e ≠ .failAfter l.core.connId k) →
       (∀ e ∈ evs2, e ≠ .failBind l.core.connId) →
       Att i l.core.connId D (runS s0 (evs1 ++ evs2)) ∧
       ∀ pre now post, evs2 = pre ++ Ev.hk now :: post → now < D + 3999 := by
   have key : ∀ (evs2 evs1 : List Ev), NoReload evs1 → NoReload evs2 → Att i l.core.connId D (runS s0 evs1) →
       Unanswered i (runS s0 evs1) evs2 →
       (∀ e ∈ evs2, e ≠ .failNext l.core.connId ∧ ∀ now, e = .hk now → 0 < now) →
+      (∀ e ∈ evs2, ∀ k, e ≠ .failAfter l.core.connId k) →
       (∀ e ∈ evs2, e ≠ .failBind l.core.connId) →
       Att i l.core.connId D (runS s0 (evs1 ++ evs2)) ∧
       ∀ pre now post, evs2 = pre ++ Ev.hk now :: post → now < D + 3999 := by
     intro evs2
     induction evs2 with
     | nil =>
-      intro evs1 _ _ hA _ _ _
+      intro evs1 _ _ hA _ _ _ _
       rw [List.append_nil]
       exact ⟨hA, fun pre now post h => by cases pre <;> cases h⟩
     | cons e es ih =>
-      intro evs1 hn1 hn2 hA hun hev hevb
+      intro evs1 hn1 hn2 hA hun hev heva hevb
       obtain ⟨hstay, hun'⟩ := hun
       obtain ⟨hne, hpos⟩ := hev e (by simp)
-      obtain ⟨hA', htick⟩ := att_step hA (regOk_run h0 evs1 hn1) e hstay hne (hevb e (by simp)) hpos hn2.head
+      obtain ⟨hA', htick⟩ := att_step hA (regOk_run h0 evs1 hn1) e hstay hne (heva e (by simp)) (hevb e (by simp)) hpos
+        hn2.head
       have hrun : runS s0 (evs1 ++ [e]) = (step (runS s0 evs1) e).1 := by rw [runS_append]; rfl
       have hn1' : NoReload (evs1 ++ [e]) := hn1.append (fun x hx => by
         rw [List.mem_singleton] at hx; subst hx; exact hn2.head)
       obtain ⟨r1, r2⟩ := ih (evs1 ++ [e]) hn1' hn2.tail (by rw [hrun]; exact hA') (by rw [hrun]; exact hun')
-        (fun e' he' => hev e' (by simp [he'])) (fun e' he' => hevb e' (by simp [he']))
+        (fun e' he' => hev e' (by simp [he'])) (fun e' he' => heva e' (by simp [he']))
+        (fun e' he' => hevb e' (by simp [he']))
       rw [List.append_assoc] at r1
       refine ⟨r1, ?_⟩
       intro pre now post hsplit
@@ -2156,8 +2164,8 @@ theorem abandon_bound {s0 : Sys F} (h0 : Startup s0) (i D : Nat) (l : FLink F) :
       | cons p ps =>
         simp only [List.cons_append, List.cons.injEq] at hsplit
         exact r2 ps now post hsplit.2
-  intro evs2 evs1 hn1 hn2 hp hD hl hnf hnb hun hev hevb
-  exact key evs2 evs1 hn1 hn2 ⟨hp, hnf, hnb, l, hl, rfl, Or.inl hD⟩ hun hev hevb
+  intro evs2 evs1 hn1 hn2 hp hD hl hnf hnb hun hev heva hevb
+  exact key evs2 evs1 hn1 hn2 ⟨hp, hnf, hnb, l, hl, rfl, Or.inl hD⟩ hun hev heva hevb
 
 /-- **One housekeeping tick while uplink `i` is pending** (shell form of `Reg.tick_deadline`): from the
 deadline on the tick abandons the attempt; before it the attempt stays on `i` and the deadline is
